@@ -5,9 +5,11 @@ import numpy as np
 from harness.common.wire import enc_clist, enc_flist, Toks
 
 
-def gen_field(rng, n, npol, noise_kind, dtype="complex", scale=1.0):
+def gen_field(rng, n, npol, noise_kind, dtype="complex", scale=1.0, dark=None):
     """JSON spec of an optical field: rows of [re, im] pairs.
-    noise_kind: none | random | zerosum (samples of every row sum to exactly 0) | zero (all-zero noise array)"""
+    noise_kind: none | random | zerosum (samples of every row sum to exactly 0) | zero (all-zero noise array)
+    dark: None | 0 | 1 — for npol=2 the signal of that polarisation is identically zero while the noise (if any) still
+    occupies both rows (an x-only / y-only field accompanied by two-polarisation noise)"""
     def val():
         if dtype == "int":
             return [float(rng.randrange(-5, 6)), 0.0]
@@ -22,6 +24,8 @@ def gen_field(rng, n, npol, noise_kind, dtype="complex", scale=1.0):
         return r
 
     sig = [row() for _ in range(npol)]
+    if dark is not None and npol == 2:
+        sig[dark] = [[0.0, 0.0] for _ in range(n)]
     noise = None
     def nval(sd):
         if dtype == "int":
@@ -46,7 +50,7 @@ def gen_field(rng, n, npol, noise_kind, dtype="complex", scale=1.0):
                 r.append([0.0, 0.0])
             rng.shuffle(r)
             noise.append(r)
-    return {"npol": npol, "n": n, "dtype": dtype, "noise_kind": noise_kind, "sig": sig, "noise": noise}
+    return {"npol": npol, "n": n, "dtype": dtype, "noise_kind": noise_kind, "dark": dark if npol == 2 else None, "sig": sig, "noise": noise}
 
 
 def _arr(rows, dtype):
@@ -110,17 +114,54 @@ def dec_field(t: Toks):
     return sig, noise
 
 
-def close(a, b, scale, rel=1e-9, abs_=1e-12):
-    """|a-b| <= rel*scale + abs_ elementwise, same shape"""
+def close(a, b, scale, rel=1e-9, abs_=0.0):
+    """|a-b| <= rel*scale + abs_ elementwise, same shape.  NaN-safe: written as `all(err <= tol)`, so a NaN/inf on one side only
+    is never "close"; non-finite values agree only with the same non-finite pattern on the other side (a model that mirrors
+    numpy's inf/nan) — oracles additionally reject every non-finite output (`nonfinite_outputs`)."""
     a = np.asarray(a, dtype=complex)
     b = np.asarray(b, dtype=complex)
     if a.shape != b.shape:
         return False
     if a.size == 0:
         return True
-    if not (np.all(np.isfinite(a)) and np.all(np.isfinite(b))):
-        return bool(np.array_equal(np.isfinite(a), np.isfinite(b)) and np.all(np.abs(np.nan_to_num(a) - np.nan_to_num(b)) <= rel * scale + abs_))
-    return bool(np.max(np.abs(a - b)) <= rel * scale + abs_)
+    tol = rel * scale + abs_
+    fa, fb = np.isfinite(a), np.isfinite(b)
+    if not (np.all(fa) and np.all(fb)):
+        if not np.array_equal(fa, fb):
+            return False
+        return bool(np.all(np.abs(np.where(fa, a, 0) - np.where(fb, b, 0)) <= tol))
+    return bool(np.all(np.abs(a - b) <= tol))
+
+
+def _maxdiff(a, b):
+    with np.errstate(all="ignore"):
+        d = np.abs(np.asarray(a, dtype=complex) - np.asarray(b, dtype=complex))
+    if d.size == 0:
+        return 0.0
+    return float(np.max(np.where(np.isnan(d), np.inf, d)))
+
+
+def nonfinite_outputs(obj, path="result"):
+    """every implementation output dump (dict with 'sig' rows) below `obj` that contains a NaN/inf: [(path, part, row, index)]"""
+    hits = []
+    if isinstance(obj, dict):
+        if isinstance(obj.get("sig"), list) and obj.get("status", "ok") == "ok":
+            for part in ("sig", "noise"):
+                rows = obj.get(part)
+                if rows:
+                    for k, r in enumerate(rows):
+                        a = np.array([complex(re, im) for re, im in r], dtype=complex)
+                        bad = np.flatnonzero(~np.isfinite(a))
+                        if bad.size:
+                            hits.append((path, "signal" if part == "sig" else "noise", k, int(bad[0])))
+        for key, v in obj.items():
+            if key not in ("sig", "noise") and isinstance(v, (dict, list)):
+                hits += nonfinite_outputs(v, f"{path}.{key}")
+    elif isinstance(obj, list):
+        for i, v in enumerate(obj):
+            if isinstance(v, (dict, list)):
+                hits += nonfinite_outputs(v, f"{path}[{i}]")
+    return hits
 
 
 def maxabs(*rowsets):
@@ -137,16 +178,24 @@ def maxabs(*rowsets):
     return m
 
 
+def scales(sig_rows, noise_rows):
+    """(signal scale, noise scale): each component is judged relative to its own magnitude (a weak noise next to a strong
+    signal is not hidden); an all-zero component must come out exactly zero (floor 1e-300)"""
+    return (max(maxabs(sig_rows), 1e-300), max(maxabs(noise_rows), 1e-300))
+
+
 def diff_fields(tag, impl_sig, impl_noise, model_sig, model_noise, scale):
-    """list of disagreement strings between an implementation result and a model result"""
+    """list of disagreement strings between an implementation result and a model / reference result.
+    `scale`: one number, or (signal scale, noise scale)."""
+    ssc, nsc = scale if isinstance(scale, tuple) else (scale, scale)
     out = []
     if len(impl_sig) != len(model_sig):
         return [f"{tag}: n_pol impl {len(impl_sig)} model {len(model_sig)}"]
     for k, (a, b) in enumerate(zip(impl_sig, model_sig)):
-        if not close(a, b, scale):
+        if not close(a, b, ssc):
             a = np.asarray(a); b = np.asarray(b)
-            d = "shape" if a.shape != b.shape else f"max|diff|={np.max(np.abs(a - b)):.3e}"
-            out.append(f"{tag}: signal row {k} differs ({d}, scale {scale:.3g})")
+            d = "shape" if a.shape != b.shape else f"max|diff|={_maxdiff(a, b):.3e}"
+            out.append(f"{tag}: signal row {k} differs ({d}, scale {ssc:.3g})")
     if (impl_noise is None) != (model_noise is None):
         out.append(f"{tag}: noise presence impl {impl_noise is not None} model {model_noise is not None}")
     elif impl_noise is not None:
@@ -154,8 +203,8 @@ def diff_fields(tag, impl_sig, impl_noise, model_sig, model_noise, scale):
             out.append(f"{tag}: noise n_pol impl {len(impl_noise)} model {len(model_noise)}")
         else:
             for k, (a, b) in enumerate(zip(impl_noise, model_noise)):
-                if not close(a, b, scale):
+                if not close(a, b, nsc):
                     a = np.asarray(a); b = np.asarray(b)
-                    d = "shape" if a.shape != b.shape else f"max|diff|={np.max(np.abs(a - b)):.3e}"
-                    out.append(f"{tag}: noise row {k} differs ({d}, scale {scale:.3g})")
+                    d = "shape" if a.shape != b.shape else f"max|diff|={_maxdiff(a, b):.3e}"
+                    out.append(f"{tag}: noise row {k} differs ({d}, scale {nsc:.3g})")
     return out
